@@ -23,7 +23,8 @@ Kinds == {"borderless", "compact", "ascii", "solid"}
 BaseOf(kind) == CASE kind \in {"borderless", "compact"} -> "none" [] kind = "ascii" -> "ascii" [] kind = "solid" -> "solid"
 
 \* every attribute a table drawn with a style depends on.
-\* TableStyle: string-valued attributes (cell styles are written "" = None, "bold", ...), the list of column
+\* TableStyle: string-valued attributes (cell styles are written "" = None, "bold" = an untagged Style,
+\* "hdr:bold" / "hdr:red" = two different Style objects that carry the same tag "hdr"), the list of column
 \* alignments and the default alignment (0 left, 1 right, 2 centred)
 OwnAll == {"padding_char", "cell_format", "header_cell_format", "cell_style", "header_cell_style"}
 \* BorderStyle: the fifteen characters and the style of the rules (glyphs of the solid style are written as letters)
@@ -68,7 +69,8 @@ ApplyEntry(e, h) ==
 
 \* ------------------------------------------------------------------ components that are rendered
 \* component kinds; "trace" / "trace2" are error traces of exceptions raised at two different source lines
-Components == {"table", "para", "labeled", "namever", "empty", "apphelp", "cmdhelp", "trace", "trace2"}
+\* "parared": a paragraph using the stock tag c1 on an I/O whose formatter's style set gives c1 other attributes
+Components == {"table", "para", "parared", "labeled", "namever", "empty", "apphelp", "cmdhelp", "trace", "trace2"}
 IsTrace(c) == c \in {"trace", "trace2"}
 \* an I/O: [utf8, ansi, verb]   verb \in {"normal", "verbose", "debug"}
 
